@@ -73,6 +73,13 @@ def floors(tier):
          "metrics_checked": 300 * k, "fermionic_states": 40 * k, "measure_2site_subwindows": 20 * k,
          "measure_2site_subwindows_open_edge_3steps": 4 * k, "measure_nn_dict_order:reversed": 3 * k,
          "measure_nn_dict_order:shuffled": 8 * k,
+         "states_with_scaled_site_tensors": 15 * k, "states_with_D1_bonds_only": 4 * k, "states_on_1x1": 1 * k,
+         "scaled_and_zero_operators": 15 * k, "container:measure_1site_dict": 15 * k, "container:measure_2site_dicts": 15 * k,
+         "container:nsite_operator_dicts": 30 * k, "container:measure_1site_site_sequence": 5 * k,
+         "container:sample_list": 2 * k, "container:sample_dict": 2 * k, "container:sample_site-dict": 2 * k,
+         "fn:EnvCTM.sample": 5 * k, "fn:EnvBoundaryMPS.sample": 3 * k, "fn:EnvBP.sample": 3 * k,
+         "defaults:measure_2site": 8 * k, "defaults:evolution_step_": 4 * k, "evolution_scaled_gates": 5 * k,
+         "evolution_distribute_defaults": 4 * k,
          "pairs_list:odd:unlisted-site-on-path": 3 * k, "pairs_list:odd:path-listed": 10 * k, "pairs_list:even:path-listed": 20 * k}
     for fn in ("measure_1site", "measure_nn", "measure_2site", "measure_nsite"):
         f["fn:EnvBoundaryMPS." + fn] = 15 * k
@@ -92,9 +99,9 @@ def floors(tier):
 
 # ------------------------------------------------------------------------------------------------ states
 
-QUICK_LAT = ((2, 2), (2, 3), (2, 3), (3, 2), (3, 2), (1, 3), (3, 1), (1, 4), (4, 1), (1, 2), (2, 1))
+QUICK_LAT = ((2, 2), (2, 3), (2, 3), (3, 2), (3, 2), (1, 3), (3, 1), (1, 4), (4, 1), (1, 2), (2, 1), (1, 1))
 THOROUGH_LAT = QUICK_LAT + ((3, 3), (3, 3), (2, 3), (3, 2), (1, 5), (5, 1), (2, 4), (4, 2))
-STRIPS = ((1, 2), (2, 1), (1, 3), (3, 1), (1, 4), (4, 1), (1, 5), (5, 1), (1, 6), (6, 1))
+STRIPS = ((1, 2), (2, 1), (1, 3), (3, 1), (1, 4), (4, 1), (1, 5), (5, 1), (1, 6), (6, 1), (1, 1))
 
 
 def dmax_for(dims):
@@ -104,15 +111,17 @@ def dmax_for(dims):
     return 3 if n <= 6 else 2
 
 
-def draw_state(ctx, rng, nprng, lattices, kinds=("rand", "rand", "circuit", "purif"), fams=None):
+def draw_state(ctx, rng, nprng, lattices, kinds=("rand", "rand", "rand", "circuit", "circuit", "purif", "purif0"), fams=None, scale=0.3):
     """-> F, g, psi, frame, dense x, description"""
     for _ in range(100):
         F = PG.fam(*(rng.choice(fams) if fams else (rng.choice(PG.FERMIONIC) if rng.random() < 0.7 else rng.choice(PG.FAMILIES))))
         dims = rng.choice(lattices)
         kind = rng.choice(kinds)
         N = dims[0] * dims[1]
-        if N > PG.max_sites(F, kind == "purif"):
+        if N > PG.max_sites(F, kind in ("purif", "purif0")):
             continue
+        if N == 1 and kind in ("circuit", "purif"):
+            kind = "purif0"
         if F.d > 2 and N > 6:
             continue
         g = PG.lattice(dims, "obc")
@@ -122,13 +131,13 @@ def draw_state(ctx, rng, nprng, lattices, kinds=("rand", "rand", "circuit", "pur
             nsec, dsec = rng.choice([(n, d) for n, d in ((2, 1), (2, 1), (3, 1), (3, 1), (2, 2), (1, 2)) if n * d <= dmax])
             psi = PG.random_peps(F, rng, g, anc="charged", nsec=nsec, dmax=dsec)
         else:
-            if kind == "purif":
+            if kind in ("purif", "purif0"):
                 psi, _ = PG.product_purif_state(F, rng, nprng, g)
             else:
                 psi, _ = PG.product_vec_state(F, rng, nprng, g)
             bonds = list(g.bonds())
             rng.shuffle(bonds)
-            for b in bonds[:rng.randint(1, len(bonds))]:
+            for b in bonds[:rng.randint(1, len(bonds))] if kind != "purif0" else []:        # purif0: product state, D=1 bonds
                 b = tuple(map(tuple, b))
                 if rng.random() < 0.5:
                     b = b[::-1]
@@ -136,25 +145,42 @@ def draw_state(ctx, rng, nprng, lattices, kinds=("rand", "rand", "circuit", "pur
                 psi.apply_gate_(gate)
                 hist.append(lab)
             for s in g.sites():
-                if rng.random() < 0.4:
+                if rng.random() < 0.4 and kind != "purif0":
                     gate, _M, lab = invertible_local_gate(F, rng, nprng, tuple(s))
                     psi.apply_gate_(gate)
                     hist.append(lab)
+        scaled = []
+        if rng.random() < scale:                 # extreme but legal scales on single site tensors: ratios must not care
+            for s in rng.sample(list(g.sites()), min(N, rng.randint(1, 2))):
+                cs = big_scalar(rng)
+                psi[s] = cs * psi[s]
+                scaled.append([list(s), abs(cs)])
         fr = R.PepsFrame(F.loc, psi)
         x = fr.dense(psi)
-        if np.count_nonzero(np.abs(x) > 1e-14 * max(np.abs(x).max(), 1e-300)) < 2:
+        if np.count_nonzero(np.abs(x) > 1e-14 * max(np.abs(x).max(), 1e-300)) < (2 if N > 1 else 1):
             continue
         S = 1.0
         for s in psi.sites():
             S *= float(psi[s].norm())
         if float(np.linalg.norm(x)) < 1e-4 * S:        # numerically tiny against the contraction round-off
             continue
-        desc = {"family": [F.cls, F.sym], "lattice": list(dims), "state": kind, "circuit": hist,
+        desc = {"family": [F.cls, F.sym], "lattice": list(dims), "state": kind, "circuit": hist, "scaled_sites": scaled,
                 "bond_dims": sorted(set(psi.get_bond_dimensions().values()))}
         if F.fermionic:
             ctx.count("fermionic_states")
+        if scaled:
+            ctx.count("states_with_scaled_site_tensors")
+        if N == 1:
+            ctx.count("states_on_1x1")
+        if max(desc["bond_dims"] + [1]) == 1:
+            ctx.count("states_with_D1_bonds_only")
         return F, g, psi, fr, x, desc
     raise CaseSkip
+
+
+def big_scalar(rng):
+    c = 10.0 ** rng.uniform(-20, 20)
+    return c * rng.choice((1, 1, -1, 1j, np.exp(0.7j)))
 
 
 def invertible_local_gate(F, rng, nprng, site):
@@ -263,10 +289,10 @@ class Battery:
             order = "mixed"
         return odd, order
 
-    def judge(self, fn, names, sites, got, key_extra="", tol_scale=1.0, key=None):
+    def judge(self, fn, names, sites, got, key_extra="", tol_scale=1.0, key=None, factor=1.0):
         ctx = self.ctx
-        exp = self.dense(names, sites)
-        scale = max(1.0, float(np.prod([self.nrm[n] for n in names])))
+        exp = factor * self.dense(names, sites)
+        scale = max(1.0, float(np.prod([self.nrm[n] for n in names]))) * (abs(factor) if factor != 0 else 1.0)
         odd, order = self.klass(names, sites)
         ctx.count("values_compared")
         ctx.count("fn:" + self.envname + "." + fn)
@@ -328,6 +354,153 @@ def restricted(ctx, envname, fn, exc, allowed):
     return False
 
 
+
+# ------------------------------------------------------------------------------------------------ container forms, scales, sampling
+
+def shuffled(rng, seq):
+    seq = list(seq)
+    rng.shuffle(seq)
+    return seq
+
+
+def extras_1site(ctx, B, env, rng, site_sequence=False):
+    """measure_1site: dict forms in shuffled site order with a single-key dict per site and a different operator per site;
+    operators at extreme scales and the zero operator (expectation values are linear in the operator)."""
+    o, F = B.F.cat, B.F
+    per = {s: rng.choice(F.even) for s in shuffled(rng, B.sites)}
+    out = env.measure_1site({s: {"k": o[nm]} for s, nm in per.items()})
+    ctx.count("container:measure_1site_dict")
+    if not isinstance(out, dict):
+        out = {B.sites[0] + ("k",): out}
+    if set(map(tuple, out)) != {s + ("k",) for s in per}:
+        ctx.violation(f"keys:{B.envname}.measure_1site", f"measure_1site(dict) returned keys {sorted(out)[:6]}")
+    for s, nm in per.items():
+        if s + ("k",) in out:
+            B.judge("measure_1site", [nm], [s], out[s + ("k",)], ":dict")
+    nm = rng.choice(F.even)
+    cs = big_scalar(rng)
+    out = env.measure_1site(cs * o[nm])
+    for s in B.sites:
+        B.judge("measure_1site", [nm], [s], out[s] if isinstance(out, dict) else out, ":scaled-operator", factor=cs)
+    out = env.measure_1site(0.0 * o[nm])
+    for s in B.sites:
+        B.judge("measure_1site", [nm], [s], out[s] if isinstance(out, dict) else out, ":zero-operator", factor=0.0)
+    ctx.count("scaled_and_zero_operators")
+    if site_sequence and len(B.sites) > 1:
+        seq = shuffled(rng, rng.sample(B.sites, rng.randint(1, len(B.sites))))
+        out = env.measure_1site(o[nm], site=list(seq))
+        ctx.count("container:measure_1site_site_sequence")
+        for s in seq:
+            B.judge("measure_1site", [nm], [s], out[s], ":site-sequence")
+
+
+def extras_2site(ctx, B, env, rng, pairs, opts, dirns):
+    """measure_2site with operators given as {site: {key: operator}} in shuffled order (one or two keys per site; all O1 of
+    one charge), and once with every optional argument omitted."""
+    o, F = B.F.cat, B.F
+    for dirn in dirns:
+        a, b = rng.choice(pairs)
+        same = [n for n in F.cat if F.charge_of(n) == F.charge_of(b) and n != b and not np.iscomplexobj(F.mat[n])]
+        Od = {s: {"x": o[a]} for s in shuffled(rng, B.sites)}
+        Pd = {}
+        for s in shuffled(rng, B.sites):
+            Pd[s] = {"y": o[b]}
+            if same and rng.random() < 0.5:
+                Pd[s]["z"] = o[rng.choice(same)]
+        names = {s: {k: next(n for n in F.cat if F.cat[n] is v) for k, v in d.items()} for s, d in Pd.items()}
+        pm = rng.choice(("<", "<=", "corner <=", "row <"))
+        out = env.measure_2site(Od, Pd, pairs=pm, dirn=dirn, opts_svd=dict(opts))
+        ctx.count("container:measure_2site_dicts")
+        for (k0, k1), v in out.items():
+            s0, s1 = tuple(k0[:2]), tuple(k1[:2])
+            if tuple(k0[2:]) != ("x",) or tuple(k1[2:]) not in (("y",), ("z",)):
+                ctx.violation(f"keys:{B.envname}.measure_2site", f"measure_2site(dicts) returned key {k0}, {k1}")
+                continue
+            B.judge("measure_2site", [a, names[s1][k1[2]]], [s0, s1], v, ":" + dirn + ":dicts")
+    # defaults: pairs='corner <=', dirn='v', opts_svd=None (D_total = largest stored boundary bond -- may bind inside zipper)
+    if "v" in dirns:
+        a, b = pairs[0]
+        out = env.measure_2site(o[a], o[b])
+        ctx.count("defaults:measure_2site")
+        bad = [(k, v) for k, v in out.items() if abs(complex(v) - B.dense([a, b], [tuple(k[0]), tuple(k[1])])) > B.tol([a, b])]
+        if bad:
+            ref = env.measure_2site(o[a], o[b], opts_svd=dict(opts))
+            for k, v in bad:
+                if abs(complex(ref[k]) - B.dense([a, b], [tuple(k[0]), tuple(k[1])])) <= B.tol([a, b]):
+                    ctx.count("default_truncation_binding:measure_2site")
+                else:
+                    B.judge("measure_2site", [a, b], [tuple(k[0]), tuple(k[1])], v, ":v:defaults")
+        for k, v in out.items():
+            if (k, v) not in bad:
+                B.judge("measure_2site", [a, b], [tuple(k[0]), tuple(k[1])], v, ":v:defaults")
+
+
+def sample_check(ctx, B, env, rng, opts=None, bp=False, dirns="vh"):
+    """sample(projectors=...) in its list / dict / per-site-dict forms (shuffled key and site order, vectors or matrices):
+    the returned probability of the drawn configuration must be <psi| prod_s P_s |psi> / <psi|psi> of the dense state."""
+    F, loc = B.F, B.F.loc
+    d = F.d
+    mats = [np.diag((np.arange(d) == k).astype(float)) for k in range(d)]
+    vec = rng.random() < 0.4
+
+    def proj(k):
+        if vec:
+            v = np.zeros(d)
+            v[k] = 1.0
+            return R.from_dense(F.cfg, v, [loc.leg], n=loc.charges[k])
+        return R.from_dense(F.cfg, mats[k], [loc.leg, loc.leg.conj()])
+
+    form = rng.choice(("list", "dict", "site-dict"))
+    if form == "list":
+        P = [proj(k) for k in range(d)]
+        key2k = {s: {k: k for k in range(d)} for s in B.sites}
+    elif form == "dict":
+        ks = shuffled(rng, range(d))
+        P = {"p%d" % k: proj(k) for k in ks}
+        key2k = {s: {"p%d" % k: k for k in range(d)} for s in B.sites}
+    else:
+        P, key2k = {}, {}
+        for s in shuffled(rng, B.sites):
+            ks = shuffled(rng, range(d))
+            P[s] = {("q", k): proj(k) for k in ks}
+            key2k[s] = {("q", k): k for k in range(d)}
+    F.seed_backend(rng)
+    kw = {} if bp or opts is None else {"opts_svd": dict(opts)}
+    if not bp and (rng.random() < 0.5 or "v" not in dirns):
+        kw["dirn"] = rng.choice(dirns)
+    smp, prob = env.sample(P, return_probabilities=True, **kw)
+    if isinstance(prob, (list, tuple)):
+        prob = prob[0]
+    ctx.count("container:sample_" + form)
+    if set(map(tuple, smp)) != set(B.sites):
+        ctx.violation(f"keys:{B.envname}.sample", f"sample returned sites {sorted(smp)[:6]}")
+        return
+    try:
+        conf = {s: key2k[s][smp[s]] for s in B.sites}
+    except (KeyError, TypeError):
+        ctx.violation(f"keys:{B.envname}.sample", f"sample returned an unknown projector key: {smp}")
+        return
+    exp = complex(R.expect(loc, B.x, [(mats[conf[s]], B.fr.position(s)) for s in B.sites], B.fr.sys_axes)).real
+    err = abs(complex(prob) - exp)
+    ctx.count("values_compared")
+    ctx.count("fn:" + B.envname + ".sample")
+    if not ctx.margin(B.envname + ".sample", err, 10 * VAL_TOL * B.amp):
+        ctx.violation(f"value:{B.envname}.sample:probability:{form}", f"{B.envname}.sample ({form}, {'vectors' if vec else 'matrices'}) drew "
+                      f"{conf} and reports probability {prob}, dense state gives {exp}", dict(B.desc, configuration={str(k): v for k, v in conf.items()}))
+
+
+def probe_falsy(ctx, B, env, rng):
+    """PROBES (recorded only): empty containers are not mentioned by the docstrings."""
+    o = B.F.cat
+    for name, call in (("measure_1site_site=[]", lambda: env.measure_1site(o["I"], site=[])),
+                       ("measure_nn_bond=[]", lambda: env.measure_nn(o["I"], o["I"], bond=[])),
+                       ("measure_2site_pairs=[]", lambda: env.measure_2site(o["I"], o["I"], pairs=[]))):
+        try:
+            r = call()
+            ctx.count("probe:empty:" + name + ":" + ("empty-result" if (isinstance(r, dict) and not r) else "returned-" + type(r).__name__))
+        except Exception as e:
+            ctx.count("probe:empty:" + name + ":" + type(e).__name__)
+
 # ------------------------------------------------------------------------------------------------ battery: bmps
 
 def battery_bmps(ctx, idx, rng, nprng, lattices):
@@ -338,7 +511,11 @@ def battery_bmps(ctx, idx, rng, nprng, lattices):
     setup = rng.choice(SETUPS)
     B = Battery(ctx, F, g, psi, fr, x, dict(desc, setup=setup), "EnvBoundaryMPS")
     opts = {"D_total": BIG}
-    env = fpeps.EnvBoundaryMPS(psi, opts_svd=dict(opts), setup=setup)
+    if setup == "r":                             # 'r' is the default set-up: omit the argument
+        env = fpeps.EnvBoundaryMPS(psi, dict(opts))
+        ctx.count("defaults:EnvBoundaryMPS_setup")
+    else:
+        env = fpeps.EnvBoundaryMPS(psi, opts_svd=dict(opts), setup=setup)
     Nx, Ny = g.Nx, g.Ny
     o = F.cat
     has_lr = "l" in setup and "r" in setup
@@ -357,6 +534,8 @@ def battery_bmps(ctx, idx, rng, nprng, lattices):
         B.judge("measure_1site", [nm], [s], env.measure_1site(o[nm], site=s), ":site")
         out = env.measure_1site({"k": o[nm]}, site=s)
         B.judge("measure_1site", [nm], [s], out["k"], ":site-dict")
+        extras_1site(ctx, B, env, rng)
+        sample_check(ctx, B, env, rng, opts, dirns="vh" if has_tb else "v")
     # ---- measure_nn on the bonds the set-up supports
     vb, hb = [tuple(map(tuple, b)) for b in g.bonds("v")], [tuple(map(tuple, b)) for b in g.bonds("h")]
     for a, b in pairs:
@@ -396,6 +575,7 @@ def battery_bmps(ctx, idx, rng, nprng, lattices):
             for (s0, s1), v in out.items():
                 B.judge("measure_2site", [a, b], [tuple(s0), tuple(s1)], v, ":" + dirn)
     windows_2site(ctx, B, env, "EnvBoundaryMPS", rng, pairs, opts, Nx, Ny, [d for d, ok in (("v", has_lr), ("h", has_tb)) if ok])
+    extras_2site(ctx, B, env, rng, pairs, opts, [d for d, ok in (("v", has_lr), ("h", has_tb)) if ok])
     for dirn, ok in (("v", has_lr), ("h", has_tb)):
         if ok:
             pairs_list_2site(ctx, B, env, rng, pairs, opts, dirn, Nx, Ny)
@@ -421,7 +601,11 @@ def battery_bmps(ctx, idx, rng, nprng, lattices):
                 return
         else:
             return
-        got = env.measure_nsite(*[o[n] for n in names], sites=sites)
+        if rng.random() < 0.2:                   # operators given as {site: operator}
+            got = env.measure_nsite(*[{tuple(s): o[n]} for n, s in zip(names, sites)], sites=sites)
+            ctx.count("container:nsite_operator_dicts")
+        else:
+            got = env.measure_nsite(*[o[n] for n in names], sites=sites)
         exp = B.dense(names, sites)
         if abs(complex(got) - exp) > B.tol(names):
             # internal default D_total (largest bond of the stored boundary vectors) may bind inside zipper:
@@ -627,6 +811,9 @@ def battery_ctm(ctx, idx, rng, nprng, lattices):
     s = rng.choice(B.sites)
     nm = rng.choice(F.even)
     B.judge("measure_1site", [nm], [s], env.measure_1site(o[nm], site=s), ":site")
+    extras_1site(ctx, B, env, rng, site_sequence=True)
+    sample_check(ctx, B, env, rng, opts)
+    probe_falsy(ctx, B, env, rng)
     # ---- measure_nn: all bonds as listed, then every bond reversed
     bonds = [tuple(map(tuple, b)) for b in g.bonds()]
     for a, b in pairs:
@@ -647,20 +834,22 @@ def battery_ctm(ctx, idx, rng, nprng, lattices):
             for (s0, s1), v in out.items():
                 B.judge("measure_2site", [a, b], [tuple(s0), tuple(s1)], v, ":" + dirn)
     windows_2site(ctx, B, env, "EnvCTM", rng, pairs, opts, Nx, Ny, "vh")
+    extras_2site(ctx, B, env, rng, pairs, opts, "vh")
     for dirn in "vh":
         pairs_list_2site(ctx, B, env, rng, pairs, opts, dirn, Nx, Ny)
     # ---- measure_nn for a sequence of bonds in reversed / shuffled order (mixed orientations), per-site operator dicts
     for a, b in pairs:
         order, how = bond_order(rng, [bd if rng.random() < 0.6 else bd[::-1] for bd in bonds])
-        out = env.measure_nn({s: o[a] for s in B.sites}, {s: o[b] for s in B.sites}, bond=order)
+        out = env.measure_nn({s: o[a] for s in shuffled(rng, B.sites)}, {s: o[b] for s in shuffled(rng, B.sites)}, bond=order)
         ctx.count("measure_nn_dict_order:" + how)
         for bd in order:
             B.judge("measure_nn", [a, b], bd, out[bd], ":bond-list:" + g.nn_bond_dirn(*bd))
     # probe (reported, not judged: the docstring names single tensors only): lists of operators per site
     a, b = pairs[0]
     try:
-        out = env.measure_nn([o[pairs[-1][0]], o[a]], [o[pairs[-1][1]], o[b]], bond=bonds[0])
-        ctx.count("probe:EnvCTM.measure_nn_operator_lists:returned")
+        if bonds:
+            out = env.measure_nn([o[pairs[-1][0]], o[a]], [o[pairs[-1][1]], o[b]], bond=bonds[0])
+            ctx.count("probe:EnvCTM.measure_nn_operator_lists:returned")
     except Exception as e:      # undocumented input form: whatever happens is only recorded
         ctx.count("probe:EnvCTM.measure_nn_operator_lists:" + type(e).__name__)
     # ---- n-site functions over all ordered pairs and random tuples
@@ -669,6 +858,9 @@ def battery_ctm(ctx, idx, rng, nprng, lattices):
 
     def nsite(names, sites):
         ops = [o[n] for n in names]
+        if rng.random() < 0.2:                   # operators given as {site: operator}
+            ops = [{tuple(s): o[n]} for n, s in zip(names, sites)]
+            ctx.count("container:nsite_operator_dicts")
         xs, ys = sorted(set(s[0] for s in sites)), sorted(set(s[1] for s in sites))
         # measure_2x2: documented to need the sites inside one 2x2 window
         if has_2x2:
@@ -733,7 +925,16 @@ def battery_bp(ctx, idx, rng, nprng, lattices):
     F, g, psi, fr, x, desc = draw_state(ctx, rng, nprng, STRIPS)
     B = Battery(ctx, F, g, psi, fr, x, desc, "EnvBP")
     env = fpeps.EnvBP(psi, init="eye", which=rng.choice(BPKINDS))
-    info = env.iterate_(max_sweeps=4 * max(g.Nx, g.Ny) + 4, diff_tol=1e-13)
+    if not g.bonds():
+        # 1x1 lattice: no messages to update.  PROBE (recorded): EnvBP.update_ takes max() of an empty list of differences
+        try:
+            env.iterate_(max_sweeps=1)
+            ctx.count("probe:EnvBP.iterate_on_1x1:returned")
+        except Exception as e:
+            ctx.count("probe:EnvBP.iterate_on_1x1:" + type(e).__name__)
+        info = type("I", (), {"converged": True, "sweeps": 0})()
+    else:
+        info = env.iterate_(max_sweeps=4 * max(g.Nx, g.Ny) + 4, diff_tol=1e-13)
     if not info.converged:
         # on a tree the messages are exact after diameter-many sweeps; non-convergence is itself a finding
         ctx.violation("bp:not-converged-on-tree", f"EnvBP.iterate_ did not converge on the loop-free lattice {desc['lattice']}: {info}", desc)
@@ -753,8 +954,10 @@ def battery_bp(ctx, idx, rng, nprng, lattices):
             B.judge("measure_nn", [a, b], bd, out[bd], ":" + g.nn_bond_dirn(*bd))
             rb = bd[::-1]
             B.judge("measure_nn", [a, b], rb, env.measure_nn(o[a], o[b], bond=rb), ":" + g.nn_bond_dirn(*rb))
+    extras_1site(ctx, B, env, rng)
+    sample_check(ctx, B, env, rng, bp=True)
     a, b = B.op_pairs(rng, 1, 0)[0]
-    out = env.measure_nn({s: o[a] for s in B.sites}, {s: o[b] for s in B.sites})      # dict (site -> operator) form
+    out = env.measure_nn({s: o[a] for s in shuffled(rng, B.sites)}, {s: o[b] for s in shuffled(rng, B.sites)})   # dict (site -> operator)
     for bd in bonds:
         B.judge("measure_nn", [a, b], bd, out[bd], ":site-dict:" + g.nn_bond_dirn(*bd))
     finish(ctx, B, ("bp", env.which, info.sweeps))
@@ -803,6 +1006,13 @@ def judge_metric(ctx, gm, which, where, desc, envname="EnvNTU"):
     if not ctx.margin("metric:antihermitian", ah, HERM_TOL):
         ctx.violation(f"metric:not-hermitian:{envname}:{which}", f"bond metric {which} at {where}: ||g-g^H||/(2||g||) = {ah:.3e}", dict(desc, where=where))
         ok = False
+    if which in SVD1_CLUSTERS and neg > PSD_TOL and float(ew.max()) <= PSD_TOL * nrm:
+        # -g is positive semi-definite: an overall sign flip of the metric.  Seen when an SVD-1 hair (cut_into_hairs) lives in a
+        # fermionically odd charge sector and comes out negative definite.  One specific key for this mechanism.
+        ctx.count("metric_sign_flipped")
+        ctx.violation("metric:negative-semidefinite:EnvNTU:svd1-hairs", f"bond metric {which} at {where} is NEGATIVE semi-definite "
+                      f"(eigenvalues/||g|| in [{float(ew.min()) / nrm:.3f}, {float(ew.max()) / nrm:.3e}])", dict(desc, where=where, which=which))
+        return False
     if not ctx.margin("metric:negative-eigenvalue", neg, PSD_TOL):
         ctx.violation(f"metric:not-psd:{envname}:{which}", f"bond metric {which} at {where}: lambda_min/||g|| = {-neg:.3e}", dict(desc, where=where))
         ok = False
@@ -854,7 +1064,8 @@ def zero_metric_bond(env, psi, gates, g):
             if dirn in ("rl", "bt"):
                 s0, s1, dirn = s1, s0, dirn[::-1]
             Q0, Q1 = reduced_pair(psi, s0, s1, dirn)
-            if float(env.bond_metric(Q0, Q1, s0, s1, dirn).g.norm()) == 0.0:
+            nrm = float(env.bond_metric(Q0, Q1, s0, s1, dirn).g.norm())
+            if nrm == 0.0 or not np.isfinite(nrm):
                 return tuple(s0), tuple(s1)
     return None
 
@@ -864,7 +1075,7 @@ def battery_evol(ctx, idx, rng, nprng, lattices):
     import yastn.tn.fpeps as fpeps
     envs = [("NTU", c) for c in CLUSTERS] + [("BP", b) for b in BPKINDS] + [("CTM", None), ("CTM", None)]
     envkind, which = envs[idx % len(envs)]
-    lat = [d for d in lattices if d[0] * d[1] <= 6]
+    lat = [d for d in lattices if 2 <= d[0] * d[1] <= 6]
     F, g, psi, fr, x, desc = draw_state(ctx, rng, nprng, lat, kinds=("rand", "circuit", "purif", "purif"))
     method = rng.choice(("mpo", "NN"))
     dmax = 4 if envkind != "CTM" else 1
@@ -880,10 +1091,25 @@ def battery_evol(ctx, idx, rng, nprng, lattices):
             s = tuple(rng.choice(g.sites()))
             gate, M, lab = invertible_local_gate(F, rng, nprng, s)
             pos = [fr.position(s)]
+        r = rng.random()
+        if r < 0.15:                             # the same gate at an extreme scale (the state is compared up to normalisation)
+            cs = big_scalar(rng)
+            gate, M, lab = gate._replace(G=type(gate.G)([cs * gate.G[0]] + list(gate.G[1:]))), cs * np.asarray(M), lab + "*big"
+            ctx.count("evolution_scaled_gates")
         gates.append(gate)
         labels.append(lab)
         ref = R.apply_chain(F.loc, ref, M, pos, fr.sys_axes)
-    if envkind != "CTM" and fr.N >= 3 and F.d == 2 and rng.random() < 0.4:
+    if rng.random() < 0.2:
+        # gates.distribute with its defaults (symmetrize=True): one nn and one local gate spread over the lattice; the
+        # circuit is whatever list comes back, read gate by gate
+        proto_nn, _, lab_nn = invertible_nn_gate(F, rng, nprng, None, max_rank=min(dmax, 2))
+        proto_loc, _, _ = invertible_local_gate(F, rng, nprng, None)
+        gates = fpeps.gates.distribute(g, gates_nn=proto_nn, gates_local=proto_loc)
+        labels, ref = ["distribute(" + lab_nn + ",local_exp)"], x
+        for gt in gates:
+            ref = R.apply_chain(F.loc, ref, R.gate_chain_dense(F.loc, gt.G), [fr.position(s) for s in gt.sites], fr.sys_axes)
+        ctx.count("evolution_distribute_defaults")
+    elif envkind != "CTM" and fr.N >= 3 and F.d == 2 and rng.random() < 0.4:
         # three-site MPO gate: identity + small perturbation (invertible), tensors from successive SVD
         path = PG.rand_path(rng, g, 3)
         if path is not None:
@@ -904,12 +1130,17 @@ def battery_evol(ctx, idx, rng, nprng, lattices):
         env = fpeps.EnvCTM(psi, init="eye")
         env.iterate_(opts_svd={"D_total": 64}, max_sweeps=3)
         kw["opts_post_truncation"] = {"opts_svd": {"D_total": 64}}
-    init = rng.choice(("EAT_SVD", "EAT_SVD", "SVD", "EAT"))
+    init = rng.choice(("EAT_SVD", "EAT_SVD", "SVD", "EAT", None))
+    if init is None:                             # every optional argument of evolution_step_ left at its default
+        init, method, ekw = "default", "mpo", {}
+        ctx.count("defaults:evolution_step_")
+    else:
+        ekw = {"method": method, "initialization": init}
     d = dict(desc, env=envkind, which=which, method=method, gates=labels, initialization=init)
     tag = envkind + (":" + which if which else "")
     legs0 = {tuple(s): psi[s].get_legs() for s in g.sites()}
     try:
-        infos = fpeps.evolution_step_(env, gates, opts_svd={"D_total": BIG}, method=method, initialization=init, **kw)
+        infos = fpeps.evolution_step_(env, gates, opts_svd={"D_total": BIG}, **ekw, **kw)
     except yastn.YastnError as e:
         # EnvCTM.update_bond_ is documented to assume fixed *sectorial* bond dimensions; a lossless truncation may still
         # shrink a bond or redistribute its sectors, after which the stored environment no longer fits.
@@ -921,10 +1152,13 @@ def battery_evol(ctx, idx, rng, nprng, lattices):
     except (ValueError, ZeroDivisionError, FloatingPointError):
         # premise of the evolution clause: a usable metric.  The SVD-1 clusters can return an identically zero metric
         # (see judge_metric) and truncate_ then divides by its norm; such steps are counted, not judged.
+        # (the CTM environment used here -- 'eye' + 3 sweeps -- is approximate and can degenerate in the same way)
         zb = zero_metric_bond(env, psi, gates, g) if (envkind == "NTU" and which in SVD1_CLUSTERS) else None
-        if zb is None:
+        if zb is None and envkind != "CTM":
             raise
-        ctx.count("evolution_zero_metric_not_judged")
+        # CTM: the stored environment is approximate and goes stale while many gates are applied; truncate_optimize_ then zeroes
+        # all eigenvalues below its error estimate and divides by <RR|g|RR> = 0.  Counted as a broken premise, not judged.
+        ctx.count("evolution_zero_metric_not_judged" if zb is not None else "evolution_degenerate_ctm_metric_not_judged")
         raise CaseSkip
     y = fr.dense(psi)
     err = overlap_error(ref, y)
@@ -1022,5 +1256,5 @@ def finalize(cov, merged):
     cov["metrics_by_cluster"] = {k[7:]: int(v) for k, v in sorted(c.items()) if k.startswith("metric:")}
     cov["evolution_by_environment"] = {k[5:]: int(v) for k, v in sorted(c.items()) if k.startswith("evol:")}
     cov["not_judged"] = {k: int(v) for k, v in sorted(c.items()) if k.startswith("nsite_default_truncation") or
-                         k.startswith("metric_identically_zero") or k.startswith("evolution_zero_metric") or
-                         k.startswith("probe:")}
+                         k.startswith("metric_identically_zero") or k.startswith("evolution_zero_metric") or k.startswith("evolution_degenerate") or
+                         k.startswith("probe:") or k.startswith("default_truncation_binding")}
